@@ -21,6 +21,7 @@
 package parse
 
 import (
+	"bytes"
 	"fmt"
 	"go/ast"
 	"go/scanner"
@@ -51,6 +52,13 @@ func (p *parser) parseMeta(i int, c *section.Change) (*Meta, error) {
 		p := p.fset.Position(line.Pos)
 		file.AddLineColumnInfo(line.Offset, p.Filename, p.Line, p.Column)
 	}
+
+	// go/scanner obeys line directives: a comment "/*line f.go:100:1*/" or
+	// "//line f.go:100" would make it report everything after it at that
+	// position of that file rather than where it is in the patch. Comments
+	// are skipped anyway, so spell these differently for the scanner.
+	metaContents = bytes.ReplaceAll(metaContents, []byte("/*line "), []byte("/*Line "))
+	metaContents = bytes.ReplaceAll(metaContents, []byte("//line "), []byte("//Line "))
 
 	parser := metaParser{fset: p.fset}
 	var scanner scanner.Scanner
